@@ -54,6 +54,8 @@ func biasFor(prop, tier string) gBias {
 		b.PFail = 30
 		b.PIgnore = 25
 	case "C06":
+		b.DynCount = true
+		b.IncRun = true
 		b.FailSibling = true
 		b.FanIn = true
 		b.PDedup = 60
